@@ -11,8 +11,9 @@ from vlib import cartgen, reffmt
 PROPERTY = 'C20'
 LEVEL = 'exploration'
 RULE = ('case = a fresh directory holding 1-4 include targets and an including cart main.p8, all decoded from one '
-        '200-byte draw. Targets: .lua files (0-5 lines, LF or CRLF, with/without final newline, empty), .p8 carts '
-        'and .p8.png carts written by the reference writers (REFFMT/REFPNG; raw code area, generated label picture) '
+        '144-byte draw. Targets: .lua files (0-5 lines, LF or CRLF, with/without final newline, empty), .p8 carts '
+        'and .p8.png carts written by the reference writers (REFFMT/REFPNG; raw code area, generated label picture; '
+        '.p8 files with all-zero data either with all sections or, as PICO-8 writes them, with the empty ones left out) '
         'whose code has 0-5 `-->8` separator lines (empty tabs, separator first/last, near-miss lines such as '
         '`--->8`, `x=1 -->8`), some containing their own `#include` lines; placed in the cart directory or in '
         'lib/, sub/dir/, a-b.c/; names with dashes, dots and digits (old.p8.lua, util.lua.p8, v1.2.p8.png). '
@@ -47,7 +48,7 @@ LEVEL_NOTE = ('Trusted: vlib/reffmt.py + vlib/refpng.py writers (self-checked pe
 TECHNIQUE = 'Hypothesis-generated cart directories; differential oracle against a reference splice; error-clause part'
 
 AVOID_ENV = 'VERIF_C20_AVOID'
-SEED_LEN = 200
+SEED_LEN = 144
 EXT = {'lua': '.lua', 'p8': '.p8', 'p8png': '.p8.png'}
 STEMS = ('x', 'inc', 'my-lib', 'v1.2', 'lib2', 't-9.b', 'old.p8', 'util.lua', '7')
 DIRS = ((5, ''), (2, 'lib/'), (2, 'sub/dir/'), (1, 'a-b.c/'))
@@ -99,8 +100,19 @@ def stmt(ch, high_ok=False):
 
 
 def gen_spec(seed, avoid=(), missing=False):
+    """All choices about main.p8 are drawn first, so that an exhausted stream only simplifies the tail of the
+    last targets."""
     ch = Choices(seed)
     nt = ch.weighted([(3, 1), (3, 2), (2, 3), (1, 4)])
+    k = ch.weighted([(1, 0), (3, 1), (3, 2), (2, 3), (2, 4)])
+    if missing and k == 0:
+        k = 1
+    items = [stmt(ch, high_ok=True) if not ch.chance(12) else b'-- #include x.lua' for _ in range(ch.below(6))]
+    inc_choices = [(ch.byte(), ch.chance(140), ch.byte(), ch.below(5), ch.byte()) for _ in range(k)]
+    main_full = ch.chance(40)
+    if missing:
+        miss = (ch.below(k), ch.below(6), ch.pick(('.lua', '.p8', '.p8.png')), ch.byte(), ch.pick(('.p8', '.p8.png')),
+                ch.below(3), ch.pick(STEMS))
     targets = []
     used = set()
     for i in range(nt):
@@ -150,49 +162,44 @@ def gen_spec(seed, avoid=(), missing=False):
                 code += b'\n'
             t['code'] = code
             t['version'] = ch.pick((8, 16, 33, 41, 5) if t['kind'] == 'p8' else (8, 1, 33, 0))
-            t['mem_seed'] = ch.take(5) if ch.chance(64) else None
+            t['mem_seed'] = ch.take(5) if ch.chance(48) else None
+            t['full'] = t['mem_seed'] is not None or ch.chance(40)
             t['label'] = ch.below(3)
-    k = ch.weighted([(1, 0), (3, 1), (3, 2), (2, 3), (2, 4)])
-    if missing and k == 0:
-        k = 1
-    items = [stmt(ch, high_ok=True) if not ch.chance(12) else b'-- #include x.lua' for _ in range(ch.below(6))]
     inc_lines = []
-    for _ in range(k):
-        t = targets[ch.below(nt)]
+    for (ti, want_sel, sel_raw, form, pos_raw) in inc_choices:
+        t = targets[ti % nt]
         name = t['path'].encode()
-        if t['kind'] != 'lua' and ch.chance(140):
+        if t['kind'] != 'lua' and want_sel:
             nsep = sum(1 for ln in lines_of(t['code']) if ln.startswith(SEPARATOR))
-            name += b':%d' % ch.below(nsep + 3)
-        pre, mid, post = ch.pick(((b'', b' ', b''), (b'  ', b' ', b''), (b'', b' ', b'  '), (b' ', b'   ', b' '),
-                                  (b'\t', b' ', b'')))
+            name += b':%d' % (sel_raw % (nsep + 3))
+        pre, mid, post = ((b'', b' ', b''), (b'  ', b' ', b''), (b'', b' ', b'  '), (b' ', b'   ', b' '),
+                          (b'    ', b'  ', b'   '))[form]
         line = pre + b'#include' + mid + name + post
         inc_lines.append(line)
-        items.insert(ch.below(len(items) + 1), line)
-    spec = {'main_code': b''.join(ln + b'\n' for ln in items), 'targets': targets, 'dirs': [], 'expect': 'splice'}
+        items.insert(pos_raw % (len(items) + 1), line)
+    spec = {'main_code': b''.join(ln + b'\n' for ln in items), 'main_full': main_full, 'targets': targets,
+            'dirs': [], 'expect': 'splice'}
     if missing:
-        victim = inc_lines[ch.below(k)]
-        variant = ch.below(6)
-        ext = ch.pick(('.lua', '.p8', '.p8.png'))
+        victim_i, variant, ext, t_raw, cart_ext, sel, stem2 = miss
+        victim = inc_lines[victim_i]
         if variant == 0:
             name = 'nope' + ext
         elif variant == 1:
-            t = targets[ch.below(nt)]
-            stem = t['path'][:-len(EXT[t['kind']])]
-            name = stem + ext
+            t = targets[t_raw % nt]
+            name = t['path'][:-len(EXT[t['kind']])] + ext
         elif variant == 2:
             spec['dirs'].append('lib')
             name = 'lib/gone' + ext
         elif variant == 3:
             name = 'nodir/x' + ext
         elif variant == 4:
-            name = 'gone' + ch.pick(('.p8', '.p8.png')) + ':%d' % ch.below(3)
+            name = 'gone' + cart_ext + ':%d' % sel
         else:
-            name = ch.pick(STEMS) + '-2' + ext
+            name = stem2 + '-2' + ext
         if name.split(':')[0] in used:
             name = 'nope-' + name.replace('/', '-')
-        new_line = b'#include ' + name.encode()
         idx = [i for i, ln in enumerate(items) if ln is victim][0]
-        items[idx] = new_line
+        items[idx] = b'#include ' + name.encode()
         spec['main_code'] = b''.join(ln + b'\n' for ln in items)
         spec['expect'] = 'error'
         spec['missing_name'] = name
@@ -321,11 +328,22 @@ def label_rows(i):
     return _labels[i]
 
 
+_file_cache = {}
+
+
+def elide(data):
+    """PICO-8 leaves out data sections that are empty: keep header, version line and the __lua__ section."""
+    return data[:data.index(b'__gfx__\n')]
+
+
 def target_file_bytes(t):
     if t['kind'] == 'lua':
         return bytes(t['data'])
-    mem = cartgen.memory_from_seed(b'\x01' + t['mem_seed'])[0] if t.get('mem_seed') else bytes(0x4300)
     code = bytes(t['code'])
+    key = (t['kind'], code, t.get('version', 8), t.get('mem_seed'), t.get('full', True), t.get('label', 0))
+    if key in _file_cache:
+        return _file_cache[key]
+    mem = cartgen.memory_from_seed(b'\x01' + t['mem_seed'])[0] if t.get('mem_seed') else bytes(0x4300)
     if t['kind'] == 'p8':
         data = reffmt.write_p8(t.get('version', 8), code, mem)
         # (reffmt.read_p8 would also decode the 5 data sections: 10x the cost, nothing to do with the code)
@@ -333,13 +351,18 @@ def target_file_bytes(t):
         back = reffmt.text_to_p8scii(text.decode('utf-8'))
         if back != ensure_nl(code) or not data.startswith(reffmt.HEADER + b'version '):
             raise SelfCheckError('reference .p8 writer/reader disagree on %r' % code)
-        return data
-    if b'\x00' in code or len(code) > 0x3d00 or code.startswith(b':c:'):
-        raise SelfCheckError('code not storable raw: %r' % code[:40])
-    data = reffmt.write_p8png(label_rows(t.get('label', 0)), mem, code, t.get('version', 8))
-    back = reffmt.read_p8png(data)
-    if back['code'] != code or back['code_kind'] != 'raw':
-        raise SelfCheckError('reference .p8.png writer/reader disagree on %r' % code)
+        if not t.get('full', True) and not t.get('mem_seed'):
+            data = elide(data)
+    else:
+        if b'\x00' in code or len(code) > 0x3d00 or code.startswith(b':c:'):
+            raise SelfCheckError('code not storable raw: %r' % code[:40])
+        data = reffmt.write_p8png(label_rows(t.get('label', 0)), mem, code, t.get('version', 8))
+        back = reffmt.read_p8png(data)
+        if back['code'] != code or back['code_kind'] != 'raw':
+            raise SelfCheckError('reference .p8.png writer/reader disagree on %r' % code)
+    if len(_file_cache) > 200:
+        _file_cache.clear()
+    _file_cache[key] = data
     return data
 
 
@@ -352,8 +375,11 @@ def materialize(spec, root):
         with open(p, 'wb') as fh:
             fh.write(target_file_bytes(t))
     main = os.path.join(root, 'main.p8')
+    data = reffmt.write_p8(spec.get('main_version', 8), bytes(spec['main_code']), bytes(0x4300))
+    if not spec.get('main_full', True):
+        data = elide(data)
     with open(main, 'wb') as fh:
-        fh.write(reffmt.write_p8(spec.get('main_version', 8), bytes(spec['main_code']), bytes(0x4300)))
+        fh.write(data)
     return main
 
 
@@ -495,7 +521,7 @@ def one(ctx, seed, kind):
 
 def part_splice(ctx):
     ctx.hyp('splice', st.binary(min_size=SEED_LEN, max_size=SEED_LEN), lambda s: one(ctx, s, 'splice'),
-            max_examples=90 if ctx.quick else 450)
+            max_examples=100 if ctx.quick else 500)
 
 
 def part_missing(ctx):
@@ -519,6 +545,10 @@ def replay(case):
         spec = dict(case['spec'])
         spec.setdefault('expect', 'splice')
         spec.setdefault('dirs', [])
+        as_bytes = lambda v: v.encode('latin-1') if isinstance(v, str) else v    # hand-written files may use text
+        spec['main_code'] = as_bytes(spec['main_code'])
+        spec['targets'] = [dict(t, **{f: as_bytes(t[f]) for f in ('data', 'code') if f in t})
+                           for t in spec.get('targets', [])]
     check_spec(spec, {k: v for k, v in case.items() if k != 'files'})
 
 
